@@ -206,7 +206,7 @@ def check_fragments(ctx, st, pt, parse0, c, frags):
             # vocabulary masses are tabulated (6 / 4 decimals); the label path uses their compositions instead
             named_term = [m for r in p.static for t_ in r.targets if t_ in ('N-Term', 'C-Term') for m in r.mods
                           if m.named]
-            slack = (span_len - 1) * sum((1e-6 if mono else 1e-3 + 5e-6 * abs(m.avg or 0.0)) for m in named_term)
+            slack = (span_len - 1) * sum((1e-4 if mono else 1e-3 + 5e-6 * abs(m.avg or 0.0)) for m in named_term)
             if predicted != 0.0 and abs(d_obs - predicted) <= t2 + 2e-6 * span_len + slack:
                 kf = 'K3' if k3 != 0.0 else 'K4'
             sigk = ('massdiff', f.ion_type if kf else f.ion_type, kf)
